@@ -194,12 +194,16 @@ def check_valid(project):
     # suites / tests
     tests = {}
     seen_suites = set()
-    dotted = set()          # dotted paths of all nodes: what `depends_on` strings and the path-keyed dicts of the loader see
+    # dotted paths: what `depends_on` strings and the path-keyed dicts of the loader see.  Tests are only ever looked up
+    # among tests and suites among suites (a TEST and a SUB-SUITE of one suite may carry the same name: the loader checks
+    # the two kinds of names separately), so the two kinds are kept apart here too
+    dotted = set()          # ... of the tests
+    dotted_suites = set()   # ... of the suites
     for sp, s, _ in iter_suites(project):
-        if tuple(sp) in seen_suites or not s["name"] or ".".join(sp) in dotted:
+        if tuple(sp) in seen_suites or not s["name"] or ".".join(sp) in dotted_suites:
             raise Invalid("duplicate suite / ambiguous dotted path")
         seen_suites.add(tuple(sp))
-        dotted.add(".".join(sp))
+        dotted_suites.add(".".join(sp))
         for n in suite_uses(s):
             if n not in byname:
                 raise Invalid("suite uses unknown fixture " + n)
@@ -429,6 +433,23 @@ def gen_project(rng, profile="basic"):
         fixtures.append(fx)
         for n in fx_names(fx):
             reg.append((n, fx))
+    # several `pre_run` fixtures depending on one another, one of which fails in its setup AFTER others have been set up
+    # (run_suites' own loop: the ones already set up must still be torn down, once, in reverse order; the session is not
+    # run); the last one of the chain is used by a test below so that the whole chain is scheduled
+    chain = []
+    if cfg["kinds"] and rng.random() < cfg.get("p_prerun_chain", 0.07):
+        k = rng.choice([2, 2, 3])
+        bad = rng.randrange(1, k) if rng.random() < 0.85 else None       # the failing one is never the first
+        for j in range(k):
+            name = "f%d" % (nfx + j)
+            gen = rng.random() < 0.8
+            fx = {"name": name, "names": None, "scope": "pre_run", "per_thread": False,
+                  "params": [chain[-1]] if chain and rng.random() < 0.8 else [], "gen": gen,
+                  "setup": [{"a": "raise", "kind": rng.choice(cfg["kinds"])}] if j == bad else [],
+                  "teardown": [{"a": "raise", "kind": "exc"}] if gen and rng.random() < 0.15 else []}
+            fixtures.append(fx)
+            reg.append((name, fx))
+            chain.append(name)
     all_names = [n for n, _ in reg]
     suite_names = [n for n, g in reg if LEVEL[g["scope"]] >= LEVEL["suite"] and not g["per_thread"]]
     pt_names = [n for n, g in reg if g["per_thread"]]
@@ -467,9 +488,10 @@ def gen_project(rng, profile="basic"):
 
     used_suite_names = []
 
-    def mk_suite(depth, siblings=()):
+    def mk_suite(depth, siblings=(), parent_tests=()):
         name = "s%d" % ctr["s"]
         ctr["s"] += 1
+        homonym = None
         # names only have to be unique among siblings: reuse a name met elsewhere in the tree (same-named suites
         # under different parents, a suite named like its parent) now and then
         cands = [n for n in used_suite_names if n not in siblings]
@@ -479,6 +501,13 @@ def gen_project(rng, profile="basic"):
             cand = rng.choice(["api.v2", "pkg.mod"])         # @lcc.suite(name="api.v2")
             if cand not in siblings:
                 name = cand
+        # a sub-suite named like a TEST of its parent (suite `a`: test `login` + sub-suite `login` — the loader checks the
+        # uniqueness of test names and of sub-suite names separately): the two nodes have the same hierarchy of names
+        # and differ by their kind only
+        twins = [t for t in parent_tests if t["name"] not in siblings]
+        if twins and rng.random() < cfg.get("p_homonym", 0.14):
+            homonym = rng.choice(twins)
+            name = homonym["name"]
         used_suite_names.append(name)
         nt = min(budget[0], rng.choice([1, 1, 2, 2, 3, 4]))
         if rng.random() < cfg.get("p_empty", 0.06):
@@ -490,7 +519,7 @@ def gen_project(rng, profile="basic"):
         nsub = 0 if depth >= 3 or budget[0] <= 0 else rng.choice([0, 0, 0, 1, 1, 2])
         subs = []
         for _ in range(nsub):
-            subs.append(mk_suite(depth + 1, [x["name"] for x in subs]))
+            subs.append(mk_suite(depth + 1, [x["name"] for x in subs], tests))
         mode = "ties" if rng.random() < cfg["p_ties"] else ("shuffled" if rng.random() < 0.12 else "seq")
         for group in (tests, subs):
             ranks = list(range(1, len(group) + 1))
@@ -514,6 +543,13 @@ def gen_project(rng, profile="basic"):
             s["teardown_test"] = gen_script(rng, cfg, cfg["p_fail_hook"], 0.3, 2)
         if suite_names and rng.random() < 0.2:
             s["injected"] = sorted(pick(suite_names, rng.choice([1, 1, 2])))   # dir() order of the suite object
+        if homonym is not None and cfg["p_fail_body"] > 0:
+            # the situation in which a mix-up of the two homonymous nodes shows: the sub-suite has a setup phase (hook or
+            # suite-scoped fixture) and tests of its own, and one of the two nodes fails (the test: usually after a gate)
+            if s["setup_suite"] is None and not s["injected"] and rng.random() < 0.7:
+                s["setup_suite"] = {"params": [], "script": gen_script(rng, cfg, cfg["p_fail_hook"], 0.3, 2)}
+            if not any(act_fails(a) for a in iter_acts(homonym["script"])) and rng.random() < 0.5:
+                homonym["script"].append(_failing_act(rng, cfg["kinds"]))
         return s
 
     suites = []
@@ -530,6 +566,12 @@ def gen_project(rng, profile="basic"):
                "force_disabled": rng.random() < cfg["p_force"], "stop_on_failure": rng.random() < cfg["p_stop"]}
     if not any(True for _ in iter_tests(project)):
         suites[0]["tests"].append(dict(mk_test(), rank=1))
+    if chain:
+        enabled = [t for _, t, _, _, dis in iter_tests(project) if not dis] or [t for _, t, *_ in iter_tests(project)]
+        user = rng.choice(enabled)
+        for n in chain if rng.random() < 0.5 else chain[-1:]:
+            if n not in user["fixtures"]:
+                user["fixtures"].append(n)
     _disambiguate(project)
     # dependencies: edges only towards tests that come earlier in a random permutation (acyclic), which
     # gives forward references and cross-suite references
@@ -554,7 +596,8 @@ def gen_project(rng, profile="basic"):
 def _disambiguate(project):
     """two nodes with the same DOTTED path (suite `a` + test `b.c` next to suite `a.b` + test `c`) cannot be told
     apart by the path-keyed tables of the loader: rename the later one (the generator's counter names are dot-free)"""
-    seen = set()
+    seen = set()            # dotted paths of the suites
+    seen_tests = set()      # dotted paths of the tests (a test may be named like a sibling sub-suite)
     n = [0]
 
     def fresh(prefix, taken):
@@ -574,10 +617,10 @@ def _disambiguate(project):
         seen.add(key)
         for t in s["tests"]:
             key = ".".join(sp + [t["name"]])
-            if key in seen:
+            if key in seen_tests:
                 t["name"] = fresh("t", {x["name"] for x in s["tests"]})
                 return _disambiguate(project)
-            seen.add(key)
+            seen_tests.add(key)
 
 
 # ------------------------------------------------------------------------------------------------
@@ -625,6 +668,16 @@ def features(project):
             f.add("test-uses-" + byname[n]["scope"])
             if byname[n]["per_thread"]:
                 f.add("test-uses-per_thread")
+    pre = [fx for fx in project["fixtures"] if fx["scope"] == "pre_run"]
+    if len(pre) >= 2:
+        f.add("pre_run-fixtures>=2")
+        if any(set(fx["params"]) & {n for g in pre for n in fx_names(g)} for fx in pre):
+            f.add("pre_run-fixture-depends-on-pre_run-fixture")
+        for j, fx in enumerate(pre):
+            if fx["setup"] and j > 0:
+                f.add("pre_run-setup-fails-after-another-pre_run-fixture")
+                if any(g["gen"] for g in pre[:j]):
+                    f.add("pre_run-setup-fails-after-a-pre_run-generator-fixture")
     for fx in project["fixtures"]:
         f.add("fx-" + fx["scope"])
         if fx["gen"]:
@@ -710,6 +763,17 @@ def features(project):
         if top["name"] in subnames:
             f.add("top-level-suite-named-like-earlier-sub-suite")
         subnames.update(sp[-1] for sp, _, _ in iter_suites(top["suites"]))
+    for sp, s, _ in iter_suites(project):
+        for x in s["suites"]:
+            for t in s["tests"]:
+                if t["name"] == x["name"]:
+                    f.add("test-named-like-sibling-sub-suite")
+                    if x["setup_suite"] or x["injected"]:
+                        f.add("test-named-like-sibling-sub-suite+suite-setup")
+                        if any(act_fails(a) for a in iter_acts(t["script"])):
+                            f.add("test-named-like-sibling-sub-suite+suite-setup+test-fails")
+                        if x["setup_suite"] and any(act_fails(a) for a in iter_acts(x["setup_suite"]["script"])):
+                            f.add("test-named-like-sibling-sub-suite+suite-setup-fails")
     tnames = [p[-1] for p, *_ in iter_tests(project)]
     if len(set(tnames)) < len(tnames):
         f.add("test-name-reused")
@@ -901,7 +965,8 @@ def shrink_project(p):
                 cands.append(q)
     # names: a dotted / reused name replaced by a fresh plain one (dependencies follow)
     for tp, t, sp, s_, _ in iter_tests(p):
-        if "." in t["name"] or sum(1 for x, *_ in iter_tests(p) if x[-1] == t["name"]) > 1:
+        if "." in t["name"] or sum(1 for x, *_ in iter_tests(p) if x[-1] == t["name"]) > 1 \
+                or any(x["name"] == t["name"] for x in s_["suites"]):
             q = copy.deepcopy(p)
             new = "t%dz" % sum(1 for _ in iter_tests(p))
             for tp2, t2, *_ in iter_tests(q):
